@@ -82,6 +82,16 @@ func VerifC12_HTLC() {
 	if verifChoice("two", 2) == 1 {
 		create("22")
 	}
+	// exported as is, or after the module's prepare-for-zero-height step (expiry heights rebased for a chain
+	// that restarts at height 1)
+	prep := verifChoice("prepForZeroHeight", 2) == 1
+	if prep {
+		panicked, what := verifCatch(func() { PrepForZeroHeightGenesis(ctx, k) })
+		if panicked {
+			verifPrint(what)
+		}
+		verifAssert(!panicked, "the prepare-for-zero-height step does not abort")
+	}
 	g := ExportGenesis(ctx, k)
 	vErr := types.ValidateGenesis(*g)
 	tsZeroUsed := false
@@ -92,7 +102,11 @@ func VerifC12_HTLC() {
 	}
 	verifAssertKnown(vErr == nil, "the exported genesis passes the module's own validation", "C12-htlc-timestamp0", tsZeroUsed)
 	verifAssume(vErr == nil)
-	e2, k2 := c12Env(h)
+	hImport := h
+	if prep {
+		hImport = 1
+	}
+	e2, k2 := c12Env(hImport)
 	// the bank side of a genesis restart is x/bank's export/import, not this module's: carry it over
 	e2.bank.restore(e.bank.snapshot())
 	panicked, what := verifCatch(func() { InitGenesis(e2.ctx, k2, *g) })
@@ -101,7 +115,7 @@ func VerifC12_HTLC() {
 	}
 	verifAssert(!panicked, "the exported genesis imports without panic")
 	verifCover("roundtrip")
-	if !claimed {
+	if !claimed && !prep {
 		verifAssert(verifDeepEqual(e.ms.stores[types.StoreKey].ents, e2.ms.stores[types.StoreKey].ents), "import reproduces the store key for key")
 	}
 	// completed contracts are dropped on export by design; every OPEN contract must answer identically
@@ -110,6 +124,7 @@ func VerifC12_HTLC() {
 			h2, ok := k2.GetHTLC(e2.ctx, id)
 			verifAssert(ok && verifDeepEqual(h1, h2), "an open contract answers identically after re-import")
 			verifAssert(e2.store().Has(types.GetHTLCExpiredQueueKey(h1.ExpirationHeight, id)), "an open contract keeps its expiry queue entry after re-import")
+			verifAssert(h1.ExpirationHeight > uint64(hImport), "an open contract expires in a later block of the re-imported chain")
 		}
 		return false
 	})
